@@ -49,6 +49,19 @@ pub open spec fn w_mathml_tip(n: ExpandedName) -> bool {
 pub open spec fn w_svg_ip(n: ExpandedName) -> bool {
     n.ns == ns!(svg) && (n.local == local_name!("foreignObject") || n.local == local_name!("desc") || n.local == local_name!("title"))
 }
+/// "a start tag whose tag name is math / svg" (in body), after the reconstruction of the active formatting elements: adjust MathML
+/// (SVG) attributes, adjust foreign attributes, insert a foreign element for the token in the MathML (SVG) namespace; a self-closing
+/// element is not pushed and its flag is acknowledged
+pub open spec fn w_enter_foreign(a: &TreeBuilder, b: &TreeBuilder, tag: Tag, ns: Namespace, r: ProcessResult) -> bool {
+    let t1 = if ns == ns!(mathml) { w_adjust_mathml_attributes(tag) } else if ns == ns!(svg) { w_adjust_svg_attributes(tag) } else { tag };
+    let t2 = w_adjust_foreign_attributes(t1);
+    let e = fresh_handle(a.sink.created@);
+    &&& b.same_but_stack(a)
+    &&& elem_name_of(e) == (ExpandedName { ns: ns, local: t2.name })
+    &&& b.sink == (Sink { created: Ghost(a.sink.created@ + 1), dom: Ghost(w_insert_dom(a, e, ns, t2.name, t2.attrs@, t2.had_duplicate_attributes)), ..a.sink })
+    &&& (t2.self_closing ==> r is DoneAckSelfClosing && b.stack() == a.stack())
+    &&& (!t2.self_closing ==> r is Done && b.stack() == a.stack().push(e))
+}
 /// the two integration-point lists above are what the repository's own predicates (tag_sets.rs, module `ts`) say (PROVED)
 pub proof fn lemma_integration_points()
     ensures forall|p: ExpandedName| #[trigger] ts::mathml_text_integration_point(p) == w_mathml_tip(p),
